@@ -5,6 +5,7 @@ import NitroVerif.Drv.FV
 import NitroVerif.Drv.Hash
 import NitroVerif.Drv.Iter
 import NitroVerif.Drv.Own
+import NitroVerif.Drv.Opt
 
 /-!
 `nvdriver model`  : one case per line on stdin, the model's answer per line on stdout.
@@ -21,6 +22,7 @@ def modelLine (line : String) : String :=
   | "hash" :: rest => Drv.Hash.model rest
   | "iter" :: rest => Drv.Iter.model rest
   | "own" :: rest => Drv.Own.model rest
+  | "opt" :: rest => Drv.Opt.model rest
   | _ => "bad-op"
 
 def judgeLine (line : String) : String :=
@@ -33,6 +35,7 @@ def judgeLine (line : String) : String :=
     | "hash" :: rest => Drv.Hash.judge rest ans
     | "iter" :: rest => Drv.Iter.judge rest ans
     | "own" :: rest => Drv.Own.judge rest ans
+    | "opt" :: rest => Drv.Opt.judge rest ans
     | _ => "bad-op"
   | _ => "bad-op"
 
